@@ -281,6 +281,8 @@ def eval_case(kind, data):
         if acc < Smass - 1e-9:
             viol(res, f"C13|stops-early|{name}", f"System({text!r}): iteration stops at accumulated mass {acc:.3f} < system mass {Smass:.3f} after {len(seq)} molecules", {"text": text, "script": script})
     res["capped"] = bool(explore.capped)
+    if res["capped"]:
+        res["capped_note"] = f"every execution with <= {explore.completed_bound} deviations from the default answers covered"
     res["traces"] = n
     # single generation
     def run1(rng):
